@@ -772,7 +772,7 @@ class Walker:
                 continue
             _, itv, s0 = r
             items = None
-            if itv.kind == "const" and isinstance(itv.value, (tuple, list, dict)) and len(itv.value) <= 16:
+            if itv.kind == "const" and isinstance(itv.value, (tuple, list, dict)) and len(itv.value) <= (64 if self.exact_loops else 16):
                 items = list(itv.value)
             if items is not None:
                 # concrete iteration
@@ -1993,7 +1993,8 @@ class Walker:
 # ---------------------------------------------------------------------- helpers
 PURE_STR_METHODS = {"startswith", "endswith", "strip", "lstrip", "rstrip", "lower", "upper", "find", "rfind", "count",
                     "isdigit", "isalpha", "isspace", "removeprefix", "removesuffix", "replace", "split", "rsplit",
-                    "partition", "rpartition", "title", "capitalize", "index", "rindex", "zfill"}
+                    "partition", "rpartition", "title", "capitalize", "index", "rindex", "zfill", "splitlines", "expandtabs", "casefold",
+                    "swapcase", "isascii", "isalnum", "isupper", "islower", "isnumeric", "isdecimal", "center", "ljust", "rjust"}
 # pure functions of the standard library that may be folded on constant arguments (POSIX semantics)
 # pure functions of urllib.parse, folded on constant arguments (keyword arguments included)
 PURE_URL_FUNCS = {"urllib.parse.unquote", "urllib.parse.unquote_plus", "urllib.parse.unquote_to_bytes", "urllib.parse.quote",
